@@ -1,0 +1,52 @@
+// Copyright 2020-2025 Buf Technologies, Inc.
+//
+// Licensed under the Apache License, Version 2.0 (the "License");
+// you may not use this file except in compliance with the License.
+// You may obtain a copy of the License at
+//
+//      http://www.apache.org/licenses/LICENSE-2.0
+//
+// Unless required by applicable law or agreed to in writing, software
+// distributed under the License is distributed on an "AS IS" BASIS,
+// WITHOUT WARRANTIES OR CONDITIONS OF ANY KIND, either express or implied.
+// See the License for the specific language governing permissions and
+// limitations under the License.
+
+//go:build verif
+
+package protoencoding
+
+// Contracts for the gocv verifier (see /verif/DESIGN.md). Comment-only.
+//
+// C11: an image written in any text encoding is read back in two passes (bufctl.bootstrapResolver): the first
+// pass has no resolver yet and must therefore SKIP the custom-option (extension) keys it cannot resolve; only
+// then can the resolver be built from the image and the options re-parsed. So every text decoder built here
+// must hand the third-party decoder options that discard unknown fields (unless the caller asked otherwise:
+// the JSON decoder has an explicit "disallow unknown" option, the others have none).
+//
+// The third-party decoders themselves are trusted sinks (results arbitrary, message havocked).
+//@ trusted func (protojson.UnmarshalOptions) Unmarshal(b, m) (err)
+//@   modifies heap
+//@ trusted func (prototext.UnmarshalOptions) Unmarshal(b, m) (err)
+//@   modifies heap
+//@ trusted func (protoyaml.UnmarshalOptions) Unmarshal(data, message) (err)
+//@   modifies heap
+//
+//@ func (m *jsonUnmarshaler) Unmarshal(data, message) (err)
+//@   property C11
+//@   modifies heap
+//@   assert before "if err := options.Unmarshal(data, message)" skips-unresolvable-extensions: !m.disallowUnknown ==> options.DiscardUnknown
+//@   assert before "if err := options.Unmarshal(data, message)" uses-the-resolver: options.Resolver == m.resolver
+//@   ensures failure-reported: true
+//
+//@ func (m *txtpbUnmarshaler) Unmarshal(data, message) (err)
+//@   property C11
+//@   modifies heap
+//@   assert before "if err := options.Unmarshal(data, message)" skips-unresolvable-extensions: options.DiscardUnknown
+//@   assert before "if err := options.Unmarshal(data, message)" uses-the-resolver: options.Resolver == m.resolver
+//
+//@ func (m *yamlUnmarshaler) Unmarshal(data, message) (err)
+//@   property C11
+//@   modifies heap
+//@   assert before "if err := options.Unmarshal(data, message)" skips-unresolvable-extensions: options.DiscardUnknown
+//@   assert before "if err := options.Unmarshal(data, message)" uses-the-resolver: options.Resolver == m.resolver
